@@ -59,7 +59,9 @@ def bulk(r, n, size=None, dgrams=False):
 def dgram_op(r, n):
     return {"do": "op", "n": n, "c": 0,
             "op": {"op": "send_dgram", "drop": True, "did": r.randrange(60000),
-                   "len": r.choice([1, 500, 1100, 1150, 1160, 1163, 1170, 1200, 1290, 1350, 1412, 1420, 1452])}}
+                   # every length around the largest datagram that fits (MTU 1200: 1162, MTU 1452: 1414):
+                   # whether the frame still fits next to an ACK frame is decided to the byte
+                   "len": r.choice([1, 500, 1100, 1200, 1290, 1350, 1452] + list(range(1140, 1168)) * 2 + list(range(1394, 1420)))}}
 
 
 def pf(vec):
@@ -71,6 +73,9 @@ def search(r, idx, pvec=None):
     cfg = {"seed": r.randrange(1 << 30), "link_mtu": r.choice(LINKS),
            "server": side(r, small=True), "client": side(r, mtud=True if pvec else None, small=True)}
     peer_limits(r, cfg)
+    # a client flight of several Handshake packets ("client certificate"): the server acknowledges
+    # Handshake packet numbers while the first 1-RTT probes, with the same numbers, are in flight
+    cfg["cf_size"] = r.choice([0, 0, 2500, 4000])
     if pvec is not None:
         cfg["pfates_c2s"] = pf(pvec)
         if r.random() < 0.5:
@@ -209,6 +214,7 @@ def handshake(r, idx, fate_vec=None, fate_map=None):
            "server": side(r), "client": side(r)}
     cfg["sf_size"] = r.choice([0, 1000, 2500, 4000, 8000])
     cfg["ch_size"] = r.choice([0, 0, 1500, 3000])
+    cfg["cf_size"] = r.choice([0, 0, 2500, 4000])
     cfg["incoming"] = r.choice(["accept", "accept", "retry", "validate"])
     peer_limits(r, cfg, 0.4)
     cfg["max_datagrams"] = r.choice([1, 2, 10])
